@@ -553,6 +553,40 @@ def oracle_case(op, kw):
     return None
 
 
+def read_profile_statement(ctx):
+    """the last sentence of C19 on the REAL constructors: "read profiles mark a feature present iff a read feature matches it
+    within delta and absent iff the read spans it without matching".  The exact expectation for ALL inputs and the class
+    predicate of the known finding `micro_feature_sweep_skip` (features shorter than delta+1 / read features <= delta apart:
+    the sweep never compares the pair) are C13's (`props/C13.py` `oracle_profile`, `expected_values`, `micro_class`) - C13 reads
+    the same profiles as include / exclude counts.  A deviation inside the class is reported under that kind (listed for C19
+    too), a deviation outside it as `read_profile_mismatch`; the tie-loser reading of DESIGN §6 is C13's `tie_loser_exon`."""
+    from props import C13
+    from gen import c13_features as G13
+    rng = ctx.rng
+    n_cases = n_class = 0
+    kept = {}
+    cases = [(w["op"], {"known": w["known"], "gene_region": w["gene_region"], "d": w["d"], "abs_d": w.get("abs_d", 20),
+                        "blocks": w["blocks"], "polya": -1, "polyt": -1}) for w in C13.MICRO_WITNESSES]
+    gen = getattr(G13, "profile_cases", None)
+    if gen is not None:
+        try:
+            cases += [(op, kw) for op, kw in gen(rng, ctx.tier == "quick")][: (1500 if ctx.tier == "quick" else 15000)]
+        except TypeError:
+            pass
+    for op, kw in cases:
+        if op not in ("exon_profile", "intron_profile"):
+            continue
+        n_cases += 1
+        for kind, detail in C13.oracle_profile(op, kw):
+            if kind == "micro_feature_sweep_skip":
+                n_class += 1
+            k = kind if kind in ("micro_feature_sweep_skip", "tie_loser_exon") else "read_profile_mismatch:" + kind
+            kept[k] = kept.get(k, 0) + 1
+            if kept[k] <= 3 and kind != "tie_loser_exon":
+                ctx.fail(k, {"op": "read_profile", "args": {"op": op, "case": vlib.canon(kw)}}, detail)
+    ctx.extra["read_profile_statement"] = {"cases": n_cases, "in_class_micro_feature_sweep_skip": n_class, "kinds": kept}
+
+
 def oracle(ctx, disagreements, broken):
     # seeded with the disagreeing inputs first
     n = 0
@@ -579,6 +613,7 @@ def oracle(ctx, disagreements, broken):
             ctx.fail("isoform_profile_glue:" + f["kind"], {"op": "gene_profile", "args": {"transcripts": tr, "delta": delta}},
                      "isoform %s %s profile %s, expected %s (features %s)" % (f["transcript"], f["kind"], f["got"], f["expected"], f["features"]))
     ctx.extra["oracle_cases"] = n
+    read_profile_statement(ctx)
     binsearch_pipeline_monitor(ctx)
 
 
@@ -652,6 +687,10 @@ def replay(ctx, failure):
     if inp["op"] == "binsearch_pipeline":
         st, _, viol = binsearch_run(inp["args"]["data"], inp["args"]["seed"])
         return any("hyp_" + str(r.get("kind")) == failure["kind"] for r in viol)
+    if inp["op"] == "read_profile":
+        from props import C13
+        a = inp["args"]
+        return bool(C13.oracle_profile(a["op"], a["case"]))
     if inp["op"] == "gene_profile":
         tr = {k: [tuple(e) for e in v] for k, v in inp["args"]["transcripts"].items()}
         fails, _, _ = gene_profile_case(ctx, tr, inp["args"]["delta"])
